@@ -60,6 +60,17 @@ func (this *ReedSolomonDecoder) Decode(received []int, twoS int) ReedSolomonExce
 		}
 		received[position] = GenericGF_addOrSubtract(received[position], errorMagnitudes[i])
 	}
+	// More than twoS/2 errors can leave the Euclidean algorithm with a locator/evaluator pair that
+	// passes the root count but does not describe a codeword: the corrected word must check out.
+	poly, e = NewGenericGFPoly(this.field, received)
+	if e != nil {
+		return WrapReedSolomonException(e)
+	}
+	for i := 0; i < twoS; i++ {
+		if poly.EvaluateAt(this.field.Exp(i+this.field.GetGeneratorBase())) != 0 {
+			return NewReedSolomonException("Corrected word is not a codeword")
+		}
+	}
 	return nil
 }
 
